@@ -366,6 +366,17 @@ func c07SepInstance(rs []byte) []byte {
 // c07GenBig plants separators and partial matches around the scanner's buffer edges.
 func c07GenBig(r *core.Rand, rs []byte) c07Src {
 	edge := core.Pick(r, []int{65536, 65536, 131072, 196608, 262144}) // multiples of the 64 KiB read size
+	if string(rs) == "\n" && r.Chance(1, 3) {
+		// one line that ends with CR LF exactly at, just before or just after the edge: the CR is
+		// the last byte of one block and the LF the first of the next
+		src := c07Src{PadUnit: core.Bytes("x"), PadCount: edge - 1 + r.Range(-1, 1)}
+		src.Data = append(core.Bytes("\r\n"), c07GenInput(r, rs, 10)...)
+		if r.Bool() {
+			src.D.Chunks = []int{edge}
+		}
+		src.D.EOFWithData = r.Bool()
+		return src
+	}
 	unit := []byte("xxxxxxxxxxxxxxx")
 	sep := rs
 	if len(rs) > 1 && utf8.RuneCountInString(string(rs)) > 1 || len(rs) == 0 {
@@ -885,7 +896,9 @@ func c07Check(sc *c07Scn, datas [][]byte, ds []core.Delivery, obs, base *c07Obs,
 		}
 	}
 	if allRef {
-		hasRT := refs[0].HasRT && usesNR
+		// (for a regex RS and for RS="" the record splitter itself maintains RT, for every
+		// stream; with a single-byte RS only the main input sets it)
+		hasRT := refs[0].HasRT
 		if len(obs.Recs) != len(want) {
 			return c07Classify(sc, datas, obs, refs, &core.Failure{Oracle: "lossless-records", Detail: fmt.Sprintf("%s: observed %d records %s, the input has %d: %s",
 				desc(), len(obs.Recs), recsString(obs.Recs, false, hasRT), len(want), recsString(want, false, hasRT))})
